@@ -1362,7 +1362,9 @@ package stackage
 //@ modifies fresh
 
 //@ func (logLevels).String
-//@ tags C11,C09
+//@ tags C11,C09,C18
+//@ ensures[C18:lvl.String.all] r == 0xffff ==> result == "ALL"
+//@ ensures[C18:lvl.String.none] r == 0x0000 ==> result == "NONE"
 //@ modifies fresh
 //@ loop 1 invariant arr(levels) == 0 || fresh(arr(levels))
 //@ loop 1 invariant forall a :: 0 <= a && a < old(alloc) ==> Mem_Str[a] == old(Mem_Str[a])
@@ -1872,3 +1874,108 @@ package stackage
 //@ safety C18
 //@ requires (r == nil || cwf(r)) && okslice(x, alloc)
 //@ noframe
+
+// ---------------------------------------------------------------------
+// C18: log-level bit-set
+
+//@ func (*logLevels).shift
+//@ tags C18
+//@ safety C08
+//@ requires r != nil && okslice(l, alloc)
+//@ let m := G_logLevelMap
+//@ let w0 := Cell_logLevels[r]
+//@ ensures[C18:lvl.shift] lvlAllOk(Map_Str_BV16_has, m, Mem_Val[arr(l)], off(l), 0, len(l)) ==> Cell_logLevels[r] == lvlSet(Map_Str_BV16_has, Map_Str_BV16_val, m, Mem_Val[arr(l)], off(l), 0, len(l), w0)
+//@ ensures[:lvl.shift.ret] result == r
+//@ modifies Cell_logLevels[r]
+//@ loop 1 invariant 0 <= i && i <= len(l)
+//@ loop 1 invariant lvlAllOk(Map_Str_BV16_has, m, Mem_Val[arr(l)], off(l), 0, len(l)) ==> lvlAllOk(Map_Str_BV16_has, m, Mem_Val[arr(l)], off(l), i, len(l)) && lvlSet(Map_Str_BV16_has, Map_Str_BV16_val, m, Mem_Val[arr(l)], off(l), i, len(l), Cell_logLevels[r]) == lvlSet(Map_Str_BV16_has, Map_Str_BV16_val, m, Mem_Val[arr(l)], off(l), 0, len(l), w0)
+//@ loop 1 invariant forall a :: a != r ==> Cell_logLevels[a] == old(Cell_logLevels[a])
+
+//@ func (*logLevels).unshift
+//@ tags C18
+//@ safety C08
+//@ requires r != nil && okslice(l, alloc)
+//@ let m := G_logLevelMap
+//@ let w0 := Cell_logLevels[r]
+//@ ensures[C18:lvl.unshift] lvlAllOk(Map_Str_BV16_has, m, Mem_Val[arr(l)], off(l), 0, len(l)) ==> Cell_logLevels[r] == lvlUnset(Map_Str_BV16_has, Map_Str_BV16_val, m, Mem_Val[arr(l)], off(l), 0, len(l), w0)
+//@ ensures[:lvl.unshift.ret] result == r
+//@ modifies Cell_logLevels[r]
+//@ loop 1 invariant 0 <= i && i <= len(l)
+//@ loop 1 invariant lvlAllOk(Map_Str_BV16_has, m, Mem_Val[arr(l)], off(l), 0, len(l)) ==> lvlAllOk(Map_Str_BV16_has, m, Mem_Val[arr(l)], off(l), i, len(l)) && lvlUnset(Map_Str_BV16_has, Map_Str_BV16_val, m, Mem_Val[arr(l)], off(l), i, len(l), Cell_logLevels[r]) == lvlUnset(Map_Str_BV16_has, Map_Str_BV16_val, m, Mem_Val[arr(l)], off(l), 0, len(l), w0)
+//@ loop 1 invariant forall a :: a != r ==> Cell_logLevels[a] == old(Cell_logLevels[a])
+
+//@ func (Stack).SetLogLevel
+//@ tags C18
+//@ safety C08,C17
+//@ requires (r == nil || wf(r)) && okslice(l, alloc)
+//@ let c := cfgOf(r)
+//@ let ls := F_nodeConfig_log[c]
+//@ let m := G_logLevelMap
+//@ let w0 := F_logSystem_lvl[ls]
+//@ let live := r != nil && !bit(F_nodeConfig_opt[c], 0x0080)
+//@ ensures[C18:SetLogLevel.set] live && lvlAllOk(Map_Str_BV16_has, m, Mem_Val[arr(l)], off(l), 0, len(l)) ==> F_logSystem_lvl[ls] == lvlSet(Map_Str_BV16_has, Map_Str_BV16_val, m, Mem_Val[arr(l)], off(l), 0, len(l), w0)
+//@ ensures[C18,C09:SetLogLevel.dead] !live ==> F_logSystem_lvl[ls] == w0
+//@ ensures[:SetLogLevel.ret] result == r
+//@ modifies F_logSystem_lvl[ls]
+
+//@ func (Stack).UnsetLogLevel
+//@ tags C18
+//@ safety C08,C17
+//@ requires (r == nil || wf(r)) && okslice(l, alloc)
+//@ let c := cfgOf(r)
+//@ let ls := F_nodeConfig_log[c]
+//@ let m := G_logLevelMap
+//@ let w0 := F_logSystem_lvl[ls]
+//@ let live := r != nil && !bit(F_nodeConfig_opt[c], 0x0080)
+//@ ensures[C18:UnsetLogLevel.set] live && lvlAllOk(Map_Str_BV16_has, m, Mem_Val[arr(l)], off(l), 0, len(l)) ==> F_logSystem_lvl[ls] == lvlUnset(Map_Str_BV16_has, Map_Str_BV16_val, m, Mem_Val[arr(l)], off(l), 0, len(l), w0)
+//@ ensures[C18,C09:UnsetLogLevel.dead] !live ==> F_logSystem_lvl[ls] == w0
+//@ ensures[:UnsetLogLevel.ret] result == r
+//@ modifies F_logSystem_lvl[ls]
+
+//@ func (Condition).SetLogLevel
+//@ tags C18
+//@ safety C06,C17
+//@ requires (r == nil || cwf(r)) && okslice(l, alloc)
+//@ let c := F_condition_cfg[r]
+//@ let ls := F_nodeConfig_log[c]
+//@ let m := G_logLevelMap
+//@ let w0 := F_logSystem_lvl[ls]
+//@ let live := r != nil && !bit(F_nodeConfig_opt[c], 0x0080)
+//@ ensures[C18:Cond.SetLogLevel.set] live && lvlAllOk(Map_Str_BV16_has, m, Mem_Val[arr(l)], off(l), 0, len(l)) ==> F_logSystem_lvl[ls] == lvlSet(Map_Str_BV16_has, Map_Str_BV16_val, m, Mem_Val[arr(l)], off(l), 0, len(l), w0)
+//@ ensures[C18,C09:Cond.SetLogLevel.dead] !live ==> F_logSystem_lvl[ls] == w0
+//@ ensures[:Cond.SetLogLevel.ret] result == r
+//@ modifies F_logSystem_lvl[ls]
+
+//@ func (Condition).UnsetLogLevel
+//@ tags C18
+//@ safety C06,C17
+//@ requires (r == nil || cwf(r)) && okslice(l, alloc)
+//@ let c := F_condition_cfg[r]
+//@ let ls := F_nodeConfig_log[c]
+//@ let m := G_logLevelMap
+//@ let w0 := F_logSystem_lvl[ls]
+//@ let live := r != nil && !bit(F_nodeConfig_opt[c], 0x0080)
+//@ ensures[C18:Cond.UnsetLogLevel.set] live && lvlAllOk(Map_Str_BV16_has, m, Mem_Val[arr(l)], off(l), 0, len(l)) ==> F_logSystem_lvl[ls] == lvlUnset(Map_Str_BV16_has, Map_Str_BV16_val, m, Mem_Val[arr(l)], off(l), 0, len(l), w0)
+//@ ensures[C18,C09:Cond.UnsetLogLevel.dead] !live ==> F_logSystem_lvl[ls] == w0
+//@ ensures[:Cond.UnsetLogLevel.ret] result == r
+//@ modifies F_logSystem_lvl[ls]
+
+//@ func (Stack).LogLevels
+//@ tags C18
+//@ safety C08,C17
+//@ requires r == nil || wf(r)
+//@ let w := F_logSystem_lvl[F_nodeConfig_log[cfgOf(r)]]
+//@ ensures[C18:LogLevels.all] r != nil && w == 0xffff ==> l == "ALL"
+//@ ensures[C18:LogLevels.none] r != nil && w == 0x0000 ==> l == "NONE"
+//@ ensures[C17:LogLevels.nil] r == nil ==> l == ""
+//@ modifies fresh
+
+//@ func (Condition).LogLevels
+//@ tags C18
+//@ safety C06,C17
+//@ requires r == nil || cwf(r)
+//@ let w := F_logSystem_lvl[F_nodeConfig_log[F_condition_cfg[r]]]
+//@ ensures[C18:Cond.LogLevels.all] r != nil && w == 0xffff ==> l == "ALL"
+//@ ensures[C18:Cond.LogLevels.none] r != nil && w == 0x0000 ==> l == "NONE"
+//@ ensures[C17:Cond.LogLevels.nil] r == nil ==> l == ""
+//@ modifies fresh
